@@ -2,6 +2,7 @@ package main
 
 import (
 	"fmt"
+	"sort"
 	"go/ast"
 	"go/constant"
 	"go/parser"
@@ -262,6 +263,10 @@ func (x *Exec) builtin(env *evalEnv, n *ast.CallExpr, name string) []Val {
 		x.fail(n.Pos(), "panic used as expression")
 	case "print", "println":
 		return nil
+	case "close":
+		x.expr(env, n.Args[0])
+		x.note("close(channel): the receiver sees ok == false from now on (assumption A-seq)")
+		return nil
 	}
 	x.fail(n.Pos(), "UNSUPPORTED builtin %s", name)
 	return nil
@@ -275,9 +280,66 @@ func (x *Exec) assumeQ(f string) {
 	x.st.assume(f)
 }
 
+// callFuncValue: a call through a function value is a case split over the closed set of package-level functions of the
+// same package that have exactly that type and a contract (e.g. the lexer's state functions); the value must be one of them.
 func (x *Exec) callFuncValue(env *evalEnv, n *ast.CallExpr) []Val {
-	x.fail(n.Pos(), "UNSUPPORTED call through function value %s", exprStr(n.Fun))
-	return nil
+	if env.info == nil {
+		x.fail(n.Pos(), "UNSUPPORTED call through function value %s in a spec", exprStr(n.Fun))
+	}
+	fv := x.expr(env, n.Fun)
+	ft, ok := fv.Ty.Underlying().(*types.Signature)
+	if !ok {
+		x.fail(n.Pos(), "UNSUPPORTED call of non-function %s", exprStr(n.Fun))
+	}
+	var args []Val
+	for i, a := range n.Args {
+		args = append(args, x.exprAs(env, a, ft.Params().At(i).Type()))
+	}
+	var cands []*FuncUnit
+	for _, cu := range x.v.funcs {
+		if cu.Pkg.Types != x.fr().unit.Pkg.Types || cu.Obj.Type().(*types.Signature).Recv() != nil {
+			continue
+		}
+		if types.Identical(cu.Obj.Type().Underlying(), ft) || types.AssignableTo(cu.Obj.Type(), fv.Ty) {
+			if con := x.v.contractOf(cu); con != nil {
+				cands = append(cands, cu)
+			}
+		}
+	}
+	sort.Slice(cands, func(i, j int) bool { return cands[i].Obj.Name() < cands[j].Obj.Name() })
+	if len(cands) == 0 {
+		x.fail(n.Pos(), "UNSUPPORTED call through function value %s: no candidate functions under contract", exprStr(n.Fun))
+	}
+	var isOne []string
+	for _, cu := range cands {
+		isOne = append(isOne, eq(fv.S, fmt.Sprint(x.funcTag(cu.Obj))))
+	}
+	x.oblige(env, "funcvalue", n.Pos(), or(isOne...), "the function value is one of the "+fmt.Sprint(len(cands))+" functions of this type under contract")
+	base := x.st
+	var outs []*State
+	var results [][]Val
+	for _, cu := range cands {
+		s := base.clone()
+		s.assume(eq(fv.S, fmt.Sprint(x.funcTag(cu.Obj))))
+		x.st = s
+		rs := x.applyContract(env, n, cu, x.v.contractOf(cu), nil, args)
+		outs = append(outs, x.st)
+		results = append(results, rs)
+	}
+	// merge: results become fresh variables defined per branch
+	nres := ft.Results().Len()
+	final := make([]Val, nres)
+	for k := 0; k < nres; k++ {
+		t := ft.Results().At(k).Type()
+		final[k] = Val{x.ctx.Fresh("fvres", x.ctx.Sort(t)), t}
+	}
+	for i, s := range outs {
+		for k := 0; k < nres; k++ {
+			s.assume(eq(final[k].S, results[i][k].S))
+		}
+	}
+	x.st = x.mergeAll(outs)
+	return final
 }
 
 // specMethodCall: pure method used in a spec (inline single-return methods)
@@ -377,7 +439,31 @@ func (x *Exec) callFunc(env *evalEnv, n *ast.CallExpr, fn *types.Func, recvExpr 
 	}
 	cu := x.v.byObj[fn]
 	if cu == nil {
-		x.fail(n.Pos(), "no source for %s", full)
+		// interface method: the dynamic callee is one of the repository's methods of that name; the union of what they
+		// can modify is havoced (everything, if there is none or one of them cannot be analysed)
+		ms := newModSet()
+		cands := 0
+		for _, c := range x.v.funcs {
+			if c.Obj.Name() == fn.Name() && c.Obj.Type().(*types.Signature).Recv() != nil && c.Decl.Body != nil && x.v.isRepoPkg(c.Pkg.PkgPath) {
+				cands++
+				if con := x.v.contractOf(c); con != nil && !con.Inline {
+					x.contractMods(c, con, ms)
+				} else {
+					x.collectMods(c, c.Decl.Body, ms, map[*types.Func]bool{c.Obj: true})
+				}
+			}
+		}
+		if cands == 0 {
+			ms.all = true
+		}
+		x.unmodelled = append(x.unmodelled, fmt.Sprintf("%s: call of interface method %s: the union of the modification sets of its %d implementations is havoced", posStr(x.v.fset, n.Pos()), full, cands))
+		x.havocMods(ms, x.st)
+		var rs []Val
+		for i := 0; i < sig.Results().Len(); i++ {
+			t := sig.Results().At(i).Type()
+			rs = append(rs, Val{x.ctx.Fresh("res", x.ctx.Sort(t)), t})
+		}
+		return rs
 	}
 	if con := x.v.contractOf(cu); con != nil && !con.Inline {
 		return x.applyContract(env, n, cu, con, recv, args)
@@ -776,9 +862,6 @@ func (x *Exec) libCall(env *evalEnv, n *ast.CallExpr, fn *types.Func, full strin
 		e := x.ctx.Fresh("err", "Iface")
 		x.st.assume("(not (= (itag " + e + ") 0))")
 		return []Val{{e, sig.Results().At(0).Type()}}
-	case "strings.HasPrefix":
-		a := x.evalArgs(env, n)
-		return []Val{{"(has_prefix " + a[0].S + " " + a[1].S + ")", tBool}}
 	case "strconv.Atoi":
 		a := x.evalArgs(env, n)
 		x.ctx.decl("fun:atoi", "(declare-fun atoi (Str) Int)")
@@ -789,6 +872,7 @@ func (x *Exec) libCall(env *evalEnv, n *ast.CallExpr, fn *types.Func, full strin
 		x.st.assume("(>= (runeW " + a[0].S + " 0) 0)")
 		x.st.assume("(=> (> (strlen " + a[0].S + ") 0) (and (>= (runeW " + a[0].S + " 0) 1) (<= (runeW " + a[0].S + " 0) (strlen " + a[0].S + "))))")
 		x.trustedUsed["utf8.DecodeRuneInString (assumed: returns the first rune and a width in 1..len for a non-empty string)"] = true
+		x.st.assume("(>= (runeAt " + a[0].S + " 0) 0)")
 		return []Val{{"(runeAt " + a[0].S + " 0)", types.Typ[types.Rune]}, {"(runeW " + a[0].S + " 0)", tInt}}
 	case "sort.SliceStable", "sort.Slice":
 		return x.sortModel(env, n)
@@ -810,6 +894,14 @@ func (x *Exec) libCall(env *evalEnv, n *ast.CallExpr, fn *types.Func, full strin
 				rs = append(rs, Val{t, rt})
 			}
 			if ok {
+				// facts about the pure functions that the lexer's loops rely on: the end-of-input rune (-1) is in no
+				// character class and in no string
+				switch fn.Pkg().Name() + "." + fn.Name() {
+				case "strings.ContainsRune":
+					x.st.assume(implies("(< "+args[1].S+" 0)", not(rs[0].S)))
+				case "unicode.IsLetter", "unicode.IsDigit", "unicode.IsSpace", "unicode.IsUpper", "unicode.IsLower":
+					x.st.assume(implies("(< "+args[0].S+" 0)", not(rs[0].S)))
+				}
 				return rs
 			}
 		}
@@ -939,6 +1031,10 @@ func (x *Exec) pureExt(name string, args []Val, rt types.Type) (string, bool) {
 		terms = append(terms, a.S)
 	}
 	fname := "ext_" + sanitize(name) + "_" + mangle(strings.Join(sorts, "_"))
+	if !x.ctx.declared["fun:"+fname] && name == "strings_HasPrefix_0" {
+		// a prefix is not longer than the string
+		x.ctx.axioms = append(x.ctx.axioms, condAxiom{[]string{"(" + fname + " "}, fmt.Sprintf("(forall ((s Str) (p Str)) (! (=> (%s s p) (>= (strlen s) (strlen p))) :pattern ((%s s p))))", fname, fname)})
+	}
 	x.ctx.decl("fun:"+fname, fmt.Sprintf("(declare-fun %s (%s) %s)", fname, strings.Join(sorts, " "), x.ctx.Sort(rt)))
 	if len(terms) == 0 {
 		return fname, true
